@@ -82,6 +82,17 @@ fn circuit<F: PrimeField, CS: RandomizableConstraintSystem<F>>(cs: &mut CS, id: 
                 Ok(())
             })?;
         }
+        // two-phase circuit whose closure adds a challenge-weighted constraint but NO multiplier (x = y), plus one first-phase gate
+        5 => {
+            let (_, _, o) = cs.multiply(vars[0].into(), vars[1].into());
+            cs.constrain(o - vars[2] + LinearCombination::from(k));
+            let v: Vec<Variable<F>> = vars.to_vec();
+            cs.specify_randomized_constraints(move |cs| {
+                let z = cs.challenge_scalar(b"eq");
+                cs.constrain((v[0] - v[1]) * z);
+                Ok(())
+            })?;
+        }
         // mixed: two first-phase multipliers, three second-phase ones (5 -> padded to 8)
         _ => {
             let (_, _, p) = cs.multiply(vars[0].into(), vars[1].into());
@@ -111,10 +122,11 @@ fn witness<F: PrimeField>(id: usize) -> Vec<F> {
         1 => vec![f(5), f(3)],
         2 => vec![f(3), f(81)],
         3 => vec![f(10), f(20), f(20), f(10)],
+        5 => vec![f(4), f(4), f(16)],
         _ => vec![f(2), f(5), f(30)],
     }
 }
-const NCIRC: usize = 5;
+const NCIRC: usize = 6;
 
 fn record<G: AffineRepr>(curve: &str) {
     let pc = PedersenGens::<G>::default();
